@@ -252,6 +252,36 @@ def build_world():
              ensures=lambda cx: [('removed', z3.And(cx.new(cx.args['self'])._rules.dom == z3.Store(cx.old(cx.args['self'])._rules.dom, cx.a('rule_id'), False),
                                                     cx.new(cx.args['self'])._rules.vals[0] == cx.old(cx.args['self'])._rules.vals[0]))],
              modifies=lambda cx: [(cx.args['self'], 'MessageRouter._rules')])
+    # ---- addMatch: the id handed out is one no registered rule has, the rule is stored under it, every other entry is kept
+    def addmatch_pre(cx):
+        me = cx.old(cx.args['self'])
+        y = cx.ctx.skolem('y_id', IntSort)
+        return [('ids-below-the-counter@y: every registered rule id is smaller than the counter (MessageRouter invariant)',
+                 z3.Implies(z3.Select(me._rules.dom, y), z3.And(y >= 0, y < me._id))),
+                ('ids-below-the-counter@counter: the same invariant at the counter value itself', z3.Not(z3.Select(me._rules.dom, me._id))),
+                ('counter-non-negative', me._id >= 0)]
+
+    def addmatch_post(cx):
+        me, new = cx.old(cx.args['self']), cx.new(cx.args['self'])
+        r = cx.result.term
+        y = cx.ctx.skolem('y_id', IntSort)
+        rule = VRef(z3.Select(new._rules.vals[0], r), R)
+        return [('the id returned belongs to no rule registered before', z3.Not(z3.Select(me._rules.dom, r))),
+                ('the new rule is registered under it with the given callback; every other registration is kept',
+                 z3.And(new._rules.dom == z3.Store(me._rules.dom, r, True), cx.new(rule).callback == cx.a('callback'), cx.new(rule).id == r,
+                        z3.Implies(y != r, z3.Select(new._rules.vals[0], y) == z3.Select(me._rules.vals[0], y)))),
+                ('invariant kept@y', z3.And(new._id > r, z3.Implies(z3.Select(new._rules.dom, y), y < new._id)))]
+
+    # (the id bookkeeping does not depend on which constraints are given: three constraint arguments are symbolic, the others
+    #  None here - 2^10 truthiness combinations are too many paths; the bounded histories use every kind of constraint)
+    OPT = Opt(STR)
+    contract(w, 'txdbus.router.MessageRouter.addMatch',
+             {'self': Ref('MessageRouter'), 'callback': Ref('Callback'), 'mtype': OPT, 'sender': NONE, 'interface': OPT, 'member': OPT, 'path': NONE,
+              'path_namespace': NONE, 'destination': NONE, 'args': NONE, 'arg_paths': NONE, 'arg0namespace': NONE},
+             result=INT, requires=addmatch_pre, ensures=addmatch_post,
+             raises={Exception: lambda cx: z3.BoolVal(True)}, may_raise_any=True,
+             modifies=lambda cx: [(cx.args['self'], 'MessageRouter._id'), (cx.args['self'], 'MessageRouter._rules')] +
+                                 [('*', R + '.' + f) for f in ('callback', 'id', 'router', 'simple', 'path_namespace', 'path_namespace?set', 'args', 'args?set', 'arg_paths', 'arg_paths?set')])
     return w
 
 
@@ -523,7 +553,7 @@ def run_bounded(tier, seed):
 def build(tier='quick'):
     w = build_world()
     return Spec('C12', w, lambda world: Models12(world),
-                ['txdbus.router.Rule.match', 'txdbus.router.Rule.add', 'txdbus.router.MessageRouter.delMatch'],
+                ['txdbus.router.Rule.match', 'txdbus.router.Rule.add', 'txdbus.router.MessageRouter.delMatch', 'txdbus.router.MessageRouter.addMatch'],
                 replay=replay, bounded=[{'name': 'rule-matching', 'run': run_bounded}],
                 trusted=['z3 string / sequence theory', 'dynamic message arguments modelled as None / int / str / other (only strings are compared)'],
                 assumed=['callback.__call__ interface: counted once, may raise anything',
